@@ -1,0 +1,12 @@
+//go:build verif
+
+// Thin exports for the verification harness (/verif/harness/cmd/db, C13). No logic.
+package server
+
+import "github.com/oxia-db/oxia/proto"
+
+// VerifValidateWriteRequest is validateWriteRequest: what leaderController.Write / WriteBlock run on a client's
+// request before an offset is assigned to it.
+func VerifValidateWriteRequest(req *proto.WriteRequest) error {
+	return validateWriteRequest(req)
+}
